@@ -26,7 +26,8 @@ EXPLANATION = (
     "the literal; and the scanner yields offsets only for the occurrence / f-string groups.  R02.3: occurrences are "
     "yielded only when a filter returned a truthy result, only the identity/hierarchy/unsure filters can return True, "
     "PyNameFilter returns True only under same_pyname, and create_finder installs a PyNameFilter for the queried "
-    "binding on every path.  R02.4 (=R01.1): the enclosing-scope lookup chain skips class scopes.  That each candidate evaluates to "
+    "binding on every path.  R02.4 (=R01.1): the enclosing-scope lookup chain skips class scopes.  R02.5 (=R15.7): target-name "
+    "collectors never bind the object name of an attribute/subscript target.  That each candidate evaluates to "
     "the right binding is otherwise not decided."
 )
 ASSUMPTIONS = ["re alternation is ordered (leftmost position, first alternative wins)",
@@ -215,6 +216,11 @@ def check(ctx, res) -> None:
     from .c01 import class_scope_rule
 
     class_scope_rule(ctx, res, "R02.4")
+
+    # ---- R02.5 (=R15.7): target-name collectors do not bind the object of an attribute/subscript target
+    from .c15 import load_positions_rule
+
+    load_positions_rule(ctx, res, "R02.5")
 
 
 def _group_sources(pat: str) -> Dict[str, str]:
